@@ -358,6 +358,26 @@ def k_location(volume: str, rest: str, namesel: int, relative: bool) -> str:
     return rt.ok()
 
 
+def k_location_outside(volume: str, tail: str, relative: bool) -> str:
+    """
+    pre: 2 <= len(volume) <= 3 and 1 <= len(tail) <= 3
+    pre: volume[0] == '/' and volume[-1] != '/'
+    pre: tail[0] != '/' and tail[-1] != '/'
+    post: _ == ''
+    """
+    # a parent directory that merely shares a string prefix with the volume (/v vs /vx/d) is NOT inside it:
+    # nothing may be cut off, the location stays absolute
+    rt.begin()
+    from trashcli.put.original_location import OriginalLocation
+    from trashcli.put.core.path_maker_type import PathMakerType
+    parent = volume + tail
+    pm = PathMakerType.RelativePaths if relative else PathMakerType.AbsolutePaths
+    got = OriginalLocation._calc_parent_path(parent, volume, pm)
+    if not (got == parent):
+        return rt.fail('C03:sibling-volume-prefix-cut', 'parent %r is outside volume %r (only a common string prefix) but was rewritten to %r' % (parent, volume, got))
+    return rt.ok()
+
+
 # ------------------------------------------------------------------ W: all byte values
 SPECIAL = ['a b', 'p%41q', 'new\nline', 'cr\rlf', 'tab\there', 'ünï', '中文', '\U0001f600', 'a=b', '[x]', 'a+b', 'a#b?c',
            'Path=x', '%', '%%', '%2', '%zz', ' lead', 'trail ', '-dash', '~tilde', "quo'te", 'dq"x', 'back\\slash', '\x7f', 'n' * 255,
@@ -520,6 +540,8 @@ def obligations(tier):
         CH('K_location_relative_or_absolute', MOD, 'k_location', timeout=600, engine='K', regime='traced',
            encodes=['OriginalLocation.for_file', 'OriginalLocation._calc_parent_path'], stubs=['realpath -> symbolic parent'],
            bounds='volume: any mount-point-shaped str len<=3; parent = volume or volume/rest (rest any str len<=3); name from a table of 4 (names are the codec obligations)'),
+        CH('K_location_outside_volume_untouched', MOD, 'k_location_outside', timeout=300, engine='K', regime='traced',
+           encodes=['OriginalLocation._calc_parent_path'], bounds='volume: any str len 2..3 starting with /; parent = volume + tail, tail any str len<=3 not starting with /'),
         CH('W_every_byte_value', MOD, 'w_bytes', timeout=900, partitions=[0, 1, 2], engine='W', regime='selector',
            encodes=K.PUT_FUNCS + K.LIST_FUNCS, stubs=K.STUBS,
            bounds='names: every single byte 1..255 except "/" (0x80.. as undecodable bytes) + 30 special names incl. 255-byte names x 3 layouts x 2 depths'),
